@@ -2,6 +2,7 @@ package checks
 
 import (
 	"bytes"
+	"context"
 	"encoding/json"
 	"fmt"
 	"os"
@@ -11,6 +12,7 @@ import (
 	"sort"
 	"strings"
 	"sync"
+	"time"
 
 	"github.com/amzn/ion-go/ion"
 
@@ -178,6 +180,7 @@ func c18Discover() {
 		n := len(sc.threads())
 		perms := permutations(n)
 		for pi, perm := range perms {
+			c18Reset()
 			bodies := sc.threads()
 			res := make([]string, n)
 			for _, ti := range perm {
@@ -216,6 +219,7 @@ func c18Body(c *mc.Ctx) {
 	k := c.Shard("scenario-and-first-thread", 3*len(c18Scenarios))
 	si, first := k/3, k%3
 	sc := c18Scenarios[si]
+	c18Reset()
 	bodies := sc.threads()
 	n := len(bodies)
 	res := make([]string, n)
@@ -229,33 +233,50 @@ func c18Body(c *mc.Ctx) {
 		relevant = func(loc string) bool { return c18Written[loc] }
 	}
 	var s *sched.Sched
-	c.Case(func() string {
+	// the schedule goes into the failure detail, not the case: every schedule exposing the same
+	// conflict is the same finding
+	c.Case(func() string { return sc.name })
+	sched1 := func() string {
 		if s == nil {
-			return sc.name
+			return ""
 		}
-		return fmt.Sprintf("%s; schedule (thread at each point) %v", sc.name, s.Switches)
-	})
+		return fmt.Sprintf(" [schedule: thread at each point %v]", s.Switches)
+	}
 	c.Class(sc.name)
 	var pan interface{}
 	s, pan = sched.Run(c, relevant, first, fns...)
 	c.Step(len(s.Accesses) + s.Points)
-	if pan != nil {
-		c.Fail("panic", "thread", "a thread panicked: %v", pan)
+	if s.Deadlock != "" {
+		c.Fail("deadlock", "deadlock", "no thread can continue: %s%s", s.Deadlock, sched1())
 		return
 	}
-	if cf := s.Conflicts(); len(cf) > 0 {
+	if pan != nil {
+		c.Fail("panic", "thread", "a thread panicked: %v%s", pan, sched1())
+		return
+	}
+	if cf := s.Conflicts(); len(cf) > 0 && os.Getenv("VERIF_C18_UNMODELLED") == "" {
 		var ds []string
 		for _, x := range cf {
 			ds = append(ds, x.String())
 		}
 		sort.Strings(ds)
-		c.Fail("conflict", ds[0], "conflicting unsynchronised accesses: %s", strings.Join(ds, "; "))
+		if dbg := os.Getenv("VERIF_C18_DEBUG"); dbg != "" {
+			f, _ := os.OpenFile(dbg, os.O_APPEND|os.O_CREATE|os.O_WRONLY, 0o644)
+			fmt.Fprintf(f, "conflict %s schedule %v\n", ds[0], s.Switches)
+			defer f.Close()
+			for _, a := range s.Accesses {
+				if a.Key == cf[0].Key {
+					fmt.Fprintf(f, "  access T%d write=%v atomic=%v vc=%v seq=%d\n", a.Thread, a.Write, a.Atomic, a.VC, a.Seq)
+				}
+			}
+		}
+		c.Fail("conflict", ds[0], "conflicting unsynchronised accesses: %s%s", strings.Join(ds, "; "), sched1())
 		return
 	}
 	solo := c18Solo[si]
 	for i := range res {
 		if res[i] != solo[i] {
-			c.Fail("value-mismatch", fmt.Sprintf("thread%d", i), "thread %d produced %q when interleaved, %q alone", i, clipStr(res[i], 200), clipStr(solo[i], 200))
+			c.Fail("value-mismatch", fmt.Sprintf("thread%d", i), "thread %d produced %q when interleaved, %q alone%s", i, clipStr(res[i], 200), clipStr(solo[i], 200), sched1())
 			return
 		}
 	}
@@ -296,11 +317,19 @@ func c18Pre(tier, scratch string) ([]string, error) {
 	if err := build(race, "-race"); err != nil {
 		return nil, err
 	}
-	return []string{"VERIF_WORKER_BIN=" + inst, "VERIF_RACE_BIN=" + race}, nil
+	env := []string{"VERIF_WORKER_BIN=" + inst, "VERIF_RACE_BIN=" + race}
+	if len(st.Unmodelled) > 0 {
+		// synchronisation the scheduler has no model for: without its happens-before edges the
+		// conflict monitor would report ordered accesses, so its verdicts are switched off and the
+		// outcome oracle, the deadlock check and the race-detector pass decide
+		env = append(env, "VERIF_C18_UNMODELLED=1")
+	}
+	return env, nil
 }
 
 // RacePass runs the same scenario bodies uninstrumented as real goroutines (built with -race).
 func RacePass(iterations int) int {
+	c18FreshTypes = true
 	for it := 0; it < iterations; it++ {
 		for si, sc := range c18Scenarios {
 			solo := make([]string, 0)
@@ -345,9 +374,22 @@ func c18Post(tier, scratch string, cov map[string]interface{}) ([]*mc.Violation,
 	if tier == "thorough" {
 		iters = "2000"
 	}
-	cmd := exec.Command(race, "racepass", iters)
+	// the free-running pass cannot recognise a deadlock of real goroutines other than by not
+	// finishing; it is given 100x its usual duration and then abandoned. Deadlocks are the explorer's
+	// business (deterministically), so an abandoned pass is a note, not a verdict.
+	limit := 15 * time.Minute
+	if v, err := time.ParseDuration(os.Getenv("VERIF_RACE_LIMIT")); err == nil && v > 0 {
+		limit = v // for exercising this path
+	}
+	ctx, cancel := context.WithTimeout(context.Background(), limit)
+	defer cancel()
+	cmd := exec.CommandContext(ctx, race, "racepass", iters)
 	cmd.Env = append(os.Environ(), "GORACE=halt_on_error=1 exitcode=66")
 	out, err := cmd.CombinedOutput()
+	if ctx.Err() != nil {
+		cov["race_pass"] = map[string]interface{}{"iterations": iters, "note": "abandoned after 15 minutes without finishing (a deadlock of the free-running goroutines?); no verdict taken from it"}
+		return nil, nil
+	}
 	cov["race_pass"] = map[string]interface{}{"iterations": iters, "note": "free-running goroutines under the Go race detector; complement of the exhaustive schedule exploration, not the deciding step", "tail": clipStr(string(out[max0(len(out)-300):]), 300)}
 	if err != nil {
 		key := "race-detector"
